@@ -649,6 +649,8 @@ def _range_info(d):
 
 
 def nontrivial(d):
+    if d.get('mode') == 'bigmesh':
+        return True
     try:
         _check_desc(d)
     except Reject:
@@ -665,6 +667,8 @@ def nontrivial(d):
 
 
 def classes(d):
+    if d.get('mode') == 'bigmesh':
+        return ['bigmesh', 'api=' + d['api']]
     n, h = d['n'], d['n'] // 2
     c = ['api=' + d['api'], 'n-odd' if n % 2 else 'n-even', 'n<=3' if n <= 3 else 'n<=12' if n <= 12 else 'n>12']
     c.append('space=' + ('fourier' if d['fourier'] else 'real'))
@@ -688,11 +692,73 @@ def classes(d):
     return c
 
 
+EXHAUSTIVE_NOTE = 'fixed large-mesh cases (n=272, quick; also n=336, thorough): mesh of ones, tie-free radial edges, counts compared with an exact vectorised int64 histogram (bins beyond 2^24 modes: exactness of the integer counts for every thread count); not a complete enumeration of anything'
+
+
+def exhaustive(tier, shard, nshards):
+    items = [dict(mode='bigmesh', api='kmu', n=272, nthreads=[1, 16]), dict(mode='bigmesh', api='kppi', n=272, nthreads=[1, 3])]
+    if tier == 'thorough':
+        items += [dict(mode='bigmesh', api='kmu', n=336, nthreads=[1, 2, 16]), dict(mode='bigmesh', api='pk', n=300, nthreads=[1, 5])]
+    for i, it in enumerate(items):
+        if i % nshards == shard:
+            yield it
+
+
+def _run_bigmesh(d, ps):
+    """Counts must be exact integers for any bin size: one-thread accumulators of more than 2^24 modes."""
+    n = int(d['n'])
+    kz = n // 2 + 1
+    L = 2 * np.pi  # dk = 1: edges are in mode units
+    mesh = np.ones((n, n, kz), dtype=np.float32)
+    f = np.arange(n, dtype=np.int64)
+    f = np.where(f < (n + 1) // 2, f, f - n)
+    k2 = (f[:, None, None] ** 2 + f[None, :, None] ** 2 + np.arange(kz, dtype=np.int64)[None, None, :] ** 2)
+    mult = np.full(kz, 2, dtype=np.int64)
+    mult[0] = 1
+    if n % 2 == 0:
+        mult[-1] = 1
+    radii = np.array([0.5, n / 4 + 0.25, n / 2 + 0.25, n], dtype=np.float64)  # squared radii are never integers: tie-free
+    cls = []
+    for nt in d['nthreads']:
+        if d['api'] == 'kppi':
+            kp2 = f[:, None] ** 2 + f[None, :] ** 2
+            pimax = n / 2 + 0.5
+            piedge = np.array([0.0, pimax])
+            exp = np.zeros((3, 1), dtype=np.int64)
+            inpi = (np.arange(kz) < pimax)
+            wz = int((mult * inpi).sum())
+            for b in range(3):
+                exp[b, 0] = int(((kp2 >= radii[b] ** 2) & (kp2 < radii[b + 1] ** 2)).sum()) * wz
+            wc, counts = call_repo(ps.bin_kppi, n, L, radii, float(pimax), 1, mesh, nthread=int(nt))
+            got = np.asarray(counts)
+        else:
+            exp = np.zeros((3, 1), dtype=np.int64)
+            for b in range(3):
+                sel = (k2 >= radii[b] ** 2) & (k2 < radii[b + 1] ** 2)
+                exp[b, 0] = int((sel * mult[None, None, :]).sum())
+            if d['api'] == 'kmu':
+                out = call_repo(ps.bin_kmu, n, L, radii, np.array([0.0, 1.0]), mesh, nthread=int(nt))
+                got = np.asarray(out[1])
+            else:
+                field = np.ones((n, n, kz), dtype=np.complex64)
+                r = call_repo(ps.calc_pk_from_deltak, field, L, radii, np.array([0.0, 1.0]), nthread=int(nt), squeeze_mu_axis=False)
+                got = np.asarray(r['N_mode'])
+        if got.dtype.kind not in 'iu':
+            raise Violation('%s-count-not-integer' % d['api'], 'N_mode dtype %s' % got.dtype)
+        if got.shape != exp.shape or not np.array_equal(got.astype(np.int64), exp):
+            raise Violation('bigmesh-count-inexact', 'api=%s n=%d nthread=%d: N_mode %s, exact %s (bins of more than 2^24 modes must still be counted exactly)' % (d['api'], n, nt, got.ravel().tolist(), exp.ravel().tolist()))
+        cls.append('bigmesh-nthread=%d' % nt)
+    _evidence['modes_enumerated'] += n**3
+    return dict(classes=cls)
+
+
 def run_case(d):
     import numba
 
     from abacusnbody.analysis import power_spectrum as ps
 
+    if d.get('mode') == 'bigmesh':
+        return _run_bigmesh(d, ps)
     _check_desc(d)
     maxthr = int(numba.config.NUMBA_NUM_THREADS)
     if max(d['nthread'], d['nthread2']) > maxthr or min(d['nthread'], d['nthread2']) < 1:
